@@ -47,10 +47,10 @@ BOUNDS = {
     "dwt_depth_ho": 4,
     "slices_x": 16,
     "slices_y": 16,
-    "luma_offset": 1 << 40,
-    "luma_excursion": 1 << 40,
-    "color_diff_offset": 1 << 40,
-    "color_diff_excursion": 1 << 40,
+    "luma_offset": 1 << 72,
+    "luma_excursion": 1 << 72,
+    "color_diff_offset": 1 << 72,
+    "color_diff_excursion": 1 << 72,
     "slice_prefix_bytes": 64,
     "slice_size_scaler": 64,
     "slice_bytes_numerator": 4096,
